@@ -314,9 +314,19 @@ def gen_segment(seg, r, values, p_opt=.3):
             continue
         if c.kind == 'comp':
             sub = []
+            cfmt = None
             for s in c.children:
                 if s.usage == 'R' or (s.usage == 'S' and r.random() < p_opt):
-                    sub.append(values.simple(s, r))
+                    if s.de == '1250':
+                        # a format qualifier inside the composite governs the date/time period component behind it
+                        known = [x for x in s.codes if x in FMTS]
+                        v = r.choice(known) if known else values.simple(s, r)
+                        cfmt = v if v in FMTS else None
+                        sub.append(v)
+                    elif s.de == '1251' and cfmt:
+                        sub.append(values.simple(s, r, cfmt))
+                    else:
+                        sub.append(values.simple(s, r))
                 else:
                     sub.append('')
             if all(x == '' for x in sub):
